@@ -29,7 +29,7 @@ CLAIMED = {
          "After every accepted establishment / modification / deletion and after every (re)start - including SIGKILL of the agent and a new incarnation against the still populated server - TLC compares the "
          "content of the harness-owned BESS server (pdrLookup, farLookup, appQERLookup, sessionQERLookup) with the image the reference specification computes from the live sessions' current rules "
          "(TablesAreImage: nothing missing, nothing else present), and checks UnknownOrUnassociatedRejected, RejectedWritesNothing and StartClearsLookupModules. "
-         "In addition (GEN) TLC generates every script of 4 (thorough: 5) operations over two sessions of different associations (spec/BessScript.tla, 1 770 / 19 385 scripts) and the harness replays them into the real agent. "
+         "In addition (GEN) TLC generates every script of 4 (thorough: 5) operations over two sessions of different associations (spec/BessScript.tla, 2 211 / 26 256 scripts) and the harness replays them into the real agent. "
          "Listed known finding F-QER-RELABEL is tolerated through named slack only for sessions whose history triggers it.",
          "Randomised histories inside the generators' envelope (DESIGN A.1); kill points are between script steps and, half of the time, inside a request (the datapath server kills the agent at the K-th command it receives for the request); packet-level Classify=Denote is argued compositionally (field-wise image) rather than sampled. " + TRUST,
          "5 C03"),
@@ -46,7 +46,7 @@ CLAIMED = {
          "rejected modification (one UP4 shard in three has writes failed by the switch) / creation / end markers disabled, and that each marker arrives after the held farLookup add was acknowledged.",
          "Both datapaths: on UP4 the markers are the packet-outs received by the harness' P4Runtime switch, 'after programming' = after the last Write RPC of the request was answered; on BESS ordering is observed by delaying the FAR programming by 25 ms. Markers due form a bag (several updated rules may have used the same tunnel). " + TRUST,
          "5 C14"),
- "C06": ("TLA+ IPPool (set-based R-level allocator; FIFO I-model refining it, complete graphs) + TraceC06: TLC validates every recorded call of the real IPPool, with linearisation search for concurrent histories (also run under the Go race detector)",
+ "C06": ("TLA+ IPPool (set-based R-level allocator; FIFO I-model refining it, complete graphs) + TraceC06: TLC validates every recorded call of the real IPPool, with linearisation search for concurrent histories (also run under the Go race detector); release storms on one session",
          "Library level against the real pfcpiface.IPPool: (seq) every sequence of L calls over {alloc, free} x 3 sessions on a /30 pool - bounded-exhaustive at the implementation (L=5 quick, 7 thorough); "
          "(prefix) every prefix /30../16 driven to exhaustion and back and walked through its whole inventory; (conc) concurrent goroutines whose invocation/response order is stamped outside the pool, "
          "accepted iff TLC finds a linearisation of the set-based allocator that reproduces every result (sound for any locking scheme). Invariants: ResultLegalForSetAllocator (in range, sticky, refusal only "
@@ -100,7 +100,7 @@ CLAIMED = {
          "Notifier.tla (as coded) is model-checked for all report/tick sequences of 3 sessions, interval 3, 8 ticks.",
          "One association (the code documents multi-association routing as unimplemented); both datapaths (every third shard: digests with the UE address sent by the harness' P4Runtime switch); time stamps are the harness' clock with 0.5x / 1.5x margins. " + TRUST,
          "5 C13"),
- "C20": ("TLA+ R-spec RouteControl (kernel routes / resolved next hops -> required module graph) + TraceC20: TLC judges the module graph after every event of bounded-exhaustive kernel histories replayed into the real Python handlers and after pairs of events delivered on two threads",
+ "C20": ("TLA+ R-spec RouteControl (kernel routes / resolved next hops -> required module graph) + TraceC20: TLC judges the module graph after every event of bounded-exhaustive kernel histories replayed into the real Python handlers and after pairs of events delivered on two threads (first handler held inside its first BESS command or inside its neighbour lookup)",
          "conf/route_control.py is loaded from /repo under stand-ins for pyroute2, pybess and scapy (the real BessController wrapper runs on a recording BESS class with bessd's EEXIST / ENOENT / EBUSY semantics). "
          "Every kernel-consistent history of RTM_NEWROUTE / RTM_DELROUTE / RTM_NEWNEIGH over 4 routes, 3 next hops and 2 managed interfaces up to depth 5 (quick) / 7 (thorough, 2.4 M events) and seeded longer histories "
          "are replayed into the real _netlink_route_handler / _netlink_neighbor_handler; after every event TLC checks InstalledIffKernelHasItAndResolved, OneGateOneModulePerNextHop, RewriteModuleExistsIffUsed and "
